@@ -197,6 +197,8 @@ def b_type(I, v):
         return PType(v.cls)
     if isinstance(v, ExcVal):
         return PType(v.cls)
+    if is_z3(v):
+        return PType('type-of-%s' % v.sort())
     raise Unsupported("type() of %r" % (v,))
 
 
@@ -230,7 +232,7 @@ BUILTINS = {
     'int': Builtin('int', b_int), 'bool': Builtin('bool', b_bool), 'isinstance': Builtin('isinstance', b_isinstance),
     'sorted': Builtin('sorted', b_sorted), 'type': Builtin('type', b_type), 'map': Builtin('map', b_map),
     'filter': Builtin('filter', b_filter), 'getattr': Builtin('getattr', b_getattr),
-    'None': None, 'True': True, 'False': False,
+    'None': None, 'True': True, 'False': False, 'Ellipsis': Ellipsis,
 }
 for _t in ('str', 'float', 'dict', 'set', 'object', 'bytes', 'frozenset'):
     BUILTINS.setdefault(_t, PType(_t))
